@@ -128,8 +128,10 @@ func newStats() *Stats { return &Stats{Traces: map[uint64]bool{}, Outcomes: map[
 
 type Explorer struct {
 	Bounds   Bounds
+	Total    int // bound on the total number of deviations of all categories (0 = no extra bound)
 	MaxExec  int64
 	Deadline time.Time
+	progress func(st *Stats, prefix []int, r *vrt.Result)
 }
 
 func (e *Explorer) expired() bool { return !e.Deadline.IsZero() && time.Now().After(e.Deadline) }
@@ -151,6 +153,15 @@ func runOne(sc *Scenario, choices []int) (*vrt.Result, []string) {
 	return r, j(r)
 }
 
+// ExploreLocal runs the bounded search in this process (debugging, small spaces).
+func (e *Explorer) ExploreLocal(sc *Scenario, progress func(st *Stats, prefix []int, r *vrt.Result)) *Stats {
+	st := newStats()
+	e.progress = progress
+	e.subtree(sc, nil, st)
+	st.NTraces = len(st.Traces)
+	return st
+}
+
 // subtree explores everything below prefix (prefix itself included) within the bounds.
 func (e *Explorer) subtree(sc *Scenario, prefix []int, st *Stats) {
 	if st.Executions >= e.MaxExec && e.MaxExec > 0 || e.expired() {
@@ -159,6 +170,9 @@ func (e *Explorer) subtree(sc *Scenario, prefix []int, st *Stats) {
 	}
 	r, ps := runOne(sc, prefix)
 	st.Executions++
+	if e.progress != nil {
+		e.progress(st, prefix, r)
+	}
 	st.Points += int64(len(r.Points))
 	if len(r.Points) > st.MaxPoints {
 		st.MaxPoints = len(r.Points)
@@ -191,10 +205,14 @@ func (e *Explorer) subtree(sc *Scenario, prefix []int, st *Stats) {
 			used[cat(r.Points[i])]++
 		}
 	}
+	usedTotal := 0
+	for _, u := range used {
+		usedTotal += u
+	}
 	for i := len(prefix); i < len(r.Points); i++ {
 		p := r.Points[i]
 		c := cat(p)
-		if used[c]+1 <= e.Bounds[c] {
+		if used[c]+1 <= e.Bounds[c] && (e.Total == 0 || usedTotal+1 <= e.Total) {
 			for alt := 1; alt < p.N; alt++ {
 				child := append(append(make([]int, 0, i+1), choices[:i]...), alt)
 				e.subtree(sc, child, st)
@@ -217,6 +235,7 @@ type job struct {
 	Arg      string `json:"arg"`
 	Prefix   []int  `json:"prefix"`
 	Bounds   Bounds `json:"bounds"`
+	Total    int    `json:"total"`
 	MaxExec  int64  `json:"max_exec"`
 	Budget   int64  `json:"budget_ms"`
 }
@@ -244,7 +263,7 @@ func WorkerMain() {
 			continue
 		}
 		sc := mk(j.Arg)
-		e := &Explorer{Bounds: j.Bounds, MaxExec: j.MaxExec}
+		e := &Explorer{Bounds: j.Bounds, Total: j.Total, MaxExec: j.MaxExec}
 		if j.Budget > 0 {
 			e.Deadline = time.Now().Add(time.Duration(j.Budget) * time.Millisecond)
 		}
@@ -283,7 +302,7 @@ func (e *Explorer) Explore(name, arg string, workers int) *Stats {
 		for alt := 1; alt < p.N; alt++ {
 			pre := make([]int, i+1)
 			pre[i] = alt
-			jobs = append(jobs, job{Scenario: name, Arg: arg, Prefix: pre, Bounds: e.Bounds, MaxExec: e.MaxExec})
+			jobs = append(jobs, job{Scenario: name, Arg: arg, Prefix: pre, Bounds: e.Bounds, Total: e.Total, MaxExec: e.MaxExec})
 		}
 	}
 	if len(jobs) == 0 {
